@@ -236,7 +236,7 @@ def pipelineOp (j : Json) : Json :=
   let names := namesOfJson ((j.getObjVal? "names").toOption.getD Json.null)
   let env : Env := { frame, names }
   let action := if getStr j "na_action" == "" then "drop" else getStr j "na_action"
-  match Pipeline.designMatrices Generated.parserTable Generated.resolverOps Generated.naActions
+  match Pipeline.designMatricesModel Generated.parserTable Generated.resolverOps Generated.naActions
       (getStr j "formula") env action with
   | .error e => pErrJson e
   | .ok b =>
